@@ -39,7 +39,7 @@ Section Facts.
 
   (* the successor relation of the walk *)
   Definition next_of (u n : uri) : Prop :=
-    exists dt first rest, download dt (get u) = Some (first :: rest) /\ join u first = Some n.
+    exists dt first rest, download (unit_of fx) dt (get u) = Some (first :: rest) /\ join u first = Some n.
 
   (* a set of URIs closed under the walk *)
   Definition closed (nodes : list uri) : Prop :=
@@ -61,7 +61,7 @@ Section Facts.
       destruct (deadline - clock (k + 1) <? 0); [cbn; discriminate|].
       destruct (is_stream (scan u)); [cbn; discriminate|].
       destruct (deadline - clock (k + 2) <? 0); [cbn; discriminate|].
-      destruct (download (deadline - clock (k + 2)) (get u)) as [[|first rest]|] eqn:Hd; try (cbn; discriminate).
+      destruct (download (unit_of fx) (deadline - clock (k + 2)) (get u)) as [[|first rest]|] eqn:Hd; try (cbn; discriminate).
       destruct (join u first) as [n|] eqn:Hj; [|destruct fx; cbn; discriminate].
       apply IH.
       + apply (Hc u n Hu). exists (deadline - clock (k + 2)), first, rest. auto.
@@ -99,7 +99,7 @@ Section Facts.
       assert (Hs2 : NoDup (scanned log2)) by (unfold log2, scanned; cbn; exact Hs1).
       assert (Hd2 : NoDup (downloaded log2)).
       { unfold log2, log1, downloaded. cbn. constructor; auto. }
-      destruct (download (deadline - clock (k + 2)) (get u)) as [[|first rest]|]; try (cbn; auto).
+      destruct (download (unit_of fx) (deadline - clock (k + 2)) (get u)) as [[|first rest]|]; try (cbn; auto).
       destruct (join u first) as [n|]; [|destruct fx; cbn; auto].
       apply IH. repeat split; auto.
       + unfold log2, log1, scanned. cbn. intros x [Hx|Hx]; [left; auto|right; auto].
@@ -113,7 +113,7 @@ Section Facts.
     forall u, In u nodes ->
       is_stream (scan u) = false
       /\ exists n first rest,
-          (forall dt, 0 <= dt -> download dt (get u) = Some (first :: rest))
+          (forall dt, 0 <= dt -> download (unit_of fx) dt (get u) = Some (first :: rest))
           /\ join u first = Some n /\ In n nodes.
 
   Lemma loop_cycle_no_stream nodes :
@@ -164,7 +164,7 @@ Section Facts.
     assert (Hl2 : Forall fetch_ok (FDownload u k (k + 2) (deadline - clock (k + 2))
                                      :: FScan u k (k + 1) (deadline - clock (k + 1)) :: log)).
     { constructor; [|exact Hl1]. unfold fetch_ok; cbn. repeat split; lia. }
-    destruct (download (deadline - clock (k + 2)) (get u)) as [[|first rest]|]; try exact Hl2.
+    destruct (download (unit_of fx) (deadline - clock (k + 2)) (get u)) as [[|first rest]|]; try exact Hl2.
     destruct (join u first); [|destruct fx; exact Hl2].
     apply IH. exact Hl2.
   Qed.
@@ -181,7 +181,7 @@ Section Facts.
     destruct (deadline - clock (k + 1) <? 0); [cbn; discriminate|].
     destruct (is_stream (scan u)); [cbn; discriminate|].
     destruct (deadline - clock (k + 2) <? 0); [cbn; discriminate|].
-    destruct (download (deadline - clock (k + 2)) (get u)) as [[|first rest]|]; try (cbn; discriminate).
+    destruct (download (unit_of fx) (deadline - clock (k + 2)) (get u)) as [[|first rest]|]; try (cbn; discriminate).
     destruct (join u first); [apply IH|rewrite Hfx; cbn; discriminate].
   Qed.
 End Facts.
@@ -190,10 +190,10 @@ End Facts.
 
 Lemma unwrap_split fx scan get join clock timeout fuel start :
   unwrap fx scan get join clock timeout fuel start =
-  (fst (loop fx scan get join clock (clock O + timeout) fuel start [] 1 []),
-   rev (snd (loop fx scan get join clock (clock O + timeout) fuel start [] 1 []))).
+  (fst (loop fx scan get join clock (deadline_of fx clock timeout) fuel start [] 1 []),
+   rev (snd (loop fx scan get join clock (deadline_of fx clock timeout) fuel start [] 1 []))).
 Proof.
-  unfold unwrap. destruct (loop fx scan get join clock (clock 0%nat + timeout) fuel start [] 1 []).
+  unfold unwrap. destruct (loop fx scan get join clock (deadline_of fx clock timeout) fuel start [] 1 []).
   reflexivity.
 Qed.
 
@@ -214,16 +214,16 @@ Qed.
 (* T3, all clauses, for every graph, join oracle, clock and timeout. *)
 Theorem unwrap_terminates_lemma :
   forall fx scan get join clock timeout (nodes : list uri) start,
-    In start nodes -> closed get join nodes ->
+    In start nodes -> closed fx get join nodes ->
     let r := unwrap fx scan get join clock timeout (S (length nodes)) start in
     (* never out of fuel: at most |nodes| + 1 iterations *)
     fst r <> OutOfFuel
     (* no URI is scanned twice, none downloaded twice *)
     /\ NoDup (scanned (snd r)) /\ NoDup (downloaded (snd r))
     (* each fetch follows a loop-head deadline check that passed and gets the time left *)
-    /\ Forall (fetch_ok clock (clock O + timeout)) (snd r)
+    /\ Forall (fetch_ok clock (deadline_of fx clock timeout)) (snd r)
     (* a cycle of playlists yields no stream *)
-    /\ (all_playlists scan get join nodes -> exists w, fst r = NoStream w)
+    /\ (all_playlists fx scan get join nodes -> exists w, fst r = NoStream w)
     (* no exception escapes (after the fix) *)
     /\ (fx = true -> forall e, fst r <> Raised e).
 Proof.
@@ -250,14 +250,14 @@ Qed.
    a reading >= k0: the configured timeout bounds the work. *)
 Theorem no_fetch_after_deadline_lemma :
   forall fx scan get join clock timeout fuel start k0,
-    (forall j, (k0 <= j)%nat -> clock O + timeout < clock j) ->
+    (forall j, (k0 <= j)%nat -> deadline_of fx clock timeout < clock j) ->
     Forall (fun f => (fetch_tick f < k0)%nat)
            (snd (unwrap fx scan get join clock timeout fuel start)).
 Proof.
   intros fx scan get join clock timeout fuel start k0 Hlate.
   rewrite unwrap_split. cbn [snd]. apply Forall_rev.
-  assert (H : Forall (fetch_ok clock (clock O + timeout))
-                     (snd (loop fx scan get join clock (clock O + timeout) fuel start [] 1 [])))
+  assert (H : Forall (fetch_ok clock (deadline_of fx clock timeout))
+                     (snd (loop fx scan get join clock (deadline_of fx clock timeout) fuel start [] 1 [])))
     by (apply loop_deadline; constructor).
   eapply Forall_impl; [|exact H].
   intros f (_ & _ & Ht & Hpos).
@@ -278,8 +278,8 @@ Proof.
   - apply nodup_b_spec. rewrite downloaded_rev. apply NoDup_rev.
     apply (loop_fetch_once fx scan get join clock). repeat split; try constructor; intros x [].
   - apply forallb_forall. intros f Hf. apply in_rev in Hf.
-    assert (H : Forall (fetch_ok clock (clock O + timeout))
-                       (snd (loop fx scan get join clock (clock O + timeout) fuel start [] 1 [])))
+    assert (H : Forall (fetch_ok clock (deadline_of fx clock timeout))
+                       (snd (loop fx scan get join clock (deadline_of fx clock timeout) fuel start [] 1 [])))
       by (apply loop_deadline; constructor).
     rewrite Forall_forall in H. destruct (H f Hf) as (_ & _ & _ & Hpos). lia.
 Qed.
@@ -297,22 +297,22 @@ Definition ex_join (u : uri) (r : str) : option uri :=
 Definition ex_clock (n : nat) : Z := Z.of_nat n.
 
 Example ex_cycle_hyps :
-  In ex_a [ex_a; ex_b] /\ closed ex_get ex_join [ex_a; ex_b]
-  /\ all_playlists ex_scan ex_get ex_join [ex_a; ex_b].
+  In ex_a [ex_a; ex_b] /\ closed true ex_get ex_join [ex_a; ex_b]
+  /\ all_playlists true ex_scan ex_get ex_join [ex_a; ex_b].
 Proof.
   split; [left; reflexivity|]. split.
   - intros u n [Hu|[Hu|[]]] (dt & first & rest & Hd & Hj); subst u; unfold ex_get, download in Hd;
       cbn [str_eqb list_eqb Z.eqb Pos.eqb andb ex_a ex_b] in Hd;
-      destruct (body_slow _ dt); try discriminate Hd;
+      destruct (body_slow _ _ dt); try discriminate Hd;
       injection Hd as <- <-; cbn in Hj; injection Hj as <-; cbn; auto.
   - intros u [Hu|[Hu|[]]]; subst u; (split; [reflexivity|]).
     + exists ex_b, [46; 98], []. split; [|split; [reflexivity|cbn; auto]].
       intros dt Hdt. unfold ex_get, download. cbn [str_eqb list_eqb Z.eqb Pos.eqb andb ex_a].
-      replace (body_slow [0; 0] dt) with false; [reflexivity|].
-      unfold body_slow. cbn [chunks length body_more Nat.ltb Nat.leb fst].
+      replace (body_slow (unit_of true) [0; 0] dt) with false; [reflexivity|].
+      unfold body_slow, unit_of. cbn [chunks length body_more Nat.ltb Nat.leb fst].
       unfold late, body_clock. cbn [elapsed].
-      destruct (dt <? 1000 * (0 + 0 - 0)) eqn:E1; [lia|].
-      destruct (dt <? 1000 * (0 + (0 + 0) - 0)) eqn:E2; [lia|]. reflexivity.
+      destruct (dt <? 1 * (0 + 0 - 0)) eqn:E1; [lia|].
+      destruct (dt <? 1 * (0 + (0 + 0) - 0)) eqn:E2; [lia|]. reflexivity.
     + exists ex_a, ex_a, []. split; [|split; [reflexivity|cbn; auto]]. intros dt _. reflexivity.
 Qed.
 
@@ -331,3 +331,55 @@ Proof.
          ex_clock, 100, 2%nat, ex_a.
   vm_compute. reflexivity.
 Qed.
+
+(* ------------------------------------------------------------------ the whole chain *)
+
+(* With the fixed code every fetch of the whole chain of nested playlists starts no later
+   than clock 0 + timeout and is handed exactly the time left.  Hence, if every fetch
+   returns within what it was handed plus `slack` (a scanner honouring its timeout;
+   download(): one chunk time, by the C20_download theorems), the first reading after ANY fetch - all the
+   work of the chain - is no later than clock 0 + timeout + slack. *)
+Theorem unwrap_chain_deadline_lemma :
+  forall scan get join clock timeout fuel start slack,
+    let log := snd (unwrap true scan get join clock timeout fuel start) in
+    (forall f, In f log ->
+       clock (S (fetch_tick f)) <= clock (fetch_tick f) + fetch_timeout f + slack) ->
+    forall f, In f log ->
+      clock (fetch_tick f) <= clock O + timeout
+      /\ fetch_timeout f = clock O + timeout - clock (fetch_tick f)
+      /\ clock (S (fetch_tick f)) <= clock O + timeout + slack.
+Proof.
+  intros scan get join clock timeout fuel start slack log Hhonest f Hf.
+  pose proof (Hhonest f Hf) as Hh. subst log.
+  rewrite unwrap_split in Hf. cbn [snd] in Hf. apply in_rev in Hf.
+  assert (H : Forall (fetch_ok clock (deadline_of true clock timeout))
+                     (snd (loop true scan get join clock (deadline_of true clock timeout) fuel start [] 1 [])))
+    by (apply loop_deadline; constructor).
+  rewrite Forall_forall in H. destruct (H f Hf) as (_ & _ & Ht & Hpos).
+  unfold deadline_of, unit_of in Ht, Hpos. lia.
+Qed.
+
+(* The pinned code adds milliseconds to seconds.  Clock in ms, timeout = 1000 ms, three
+   playlists in a row whose scans each take 900 ms (well within the 999 "ms" each was
+   handed): the third scan is STARTED 1800 ms after the unwrapping began, and ends at
+   2700 ms; the same run through the fixed code gives up when the budget is used up. *)
+Definition ex3_uri (i : Z) : uri := [112; 48 + i].
+Definition ex3_scan (u : uri) : scan_out := ScanError.
+Definition ex3_get (u : uri) : get_out :=
+  if str_eqb u (ex3_uri 0) then GetResponse true [0] [ex3_uri 1]
+  else if str_eqb u (ex3_uri 1) then GetResponse true [0] [ex3_uri 2]
+  else GetResponse true [0] [].
+Definition ex3_join (u : uri) (r : str) : option uri := Some r.
+(* readings: 0 (deadline), then per iteration: head, before scan, after scan (+900) *)
+Definition ex3_clock (n : nat) : Z := 900 * Z.of_nat (n / 3).
+
+Definition honest_pinned_b (clock : nat -> Z) (log : list fetch) : bool :=
+  forallb (fun f => 1000 * (clock (S (fetch_tick f)) - clock (fetch_tick f)) <=? fetch_timeout f) log.
+
+Lemma unwrap_chain_deadline_pinned_refuted_lemma :
+  let r := unwrap false ex3_scan ex3_get ex3_join ex3_clock 1000 4 (ex3_uri 0) in
+  fst r = Found (ex3_uri 2) false
+  /\ honest_pinned_b ex3_clock (snd r) = true
+  /\ existsb (fun f => ex3_clock O + 1000 <? ex3_clock (fetch_tick f)) (snd r) = true
+  /\ fst (unwrap true ex3_scan ex3_get ex3_join ex3_clock 1000 4 (ex3_uri 0)) = NoStream TimedOutDownload.
+Proof. vm_compute. repeat split; reflexivity. Qed.
